@@ -319,6 +319,14 @@ func TestVerifDB(t *testing.T) {
 					panic(err)
 				}
 				fmt.Fprintf(w, "%d ok rest\n", lineno)
+			case "RESTI":
+				// recover INTO the existing (non-fresh) replica: a lagging follower catching up from a snapshot
+				rid := tk.u()
+				src := tk.u()
+				if err := reps[rid].RecoverFromSnapshot(bytes.NewReader(snaps[src]), nil, nil); err != nil {
+					panic(err)
+				}
+				fmt.Fprintf(w, "%d ok rest\n", lineno)
 			default:
 				fmt.Fprintf(w, "%d ok skip\n", lineno)
 			}
